@@ -275,3 +275,37 @@ Section Step.
       destruct (Hst e) as [_ Hv]. apply Hv, He.
   Qed.
 End Step.
+
+(* Naming several axes is applying them one after another in the given order: the model's
+   multi-axis call is the composition of the single-axis steps, followed by the
+   transposition that restores the order of the dimensions. *)
+Section Sequence.
+  Context {A : Type} (o : Ops A) (ofZ : Z -> A).
+
+  Lemma steps_app tbl (g : grid A) dssizes c orig : forall axes1 axes2 (t : tensor A),
+    steps o ofZ tbl g dssizes c orig t (axes1 ++ axes2) =
+    match steps o ofZ tbl g dssizes c orig t axes1 with
+    | Ok t' => steps o ofZ tbl g dssizes c orig t' axes2
+    | Err e => Err e
+    end.
+  Proof.
+    induction axes1 as [|a r IH]; intros axes2 t; [reflexivity|].
+    cbn [app steps]. destruct (step o ofZ tbl g dssizes c orig t a) as [t'|e]; [|reflexivity].
+    cbn [bind]. apply IH.
+  Qed.
+
+  Lemma steps_single tbl (g : grid A) dssizes c orig (t : tensor A) a :
+    steps o ofZ tbl g dssizes c orig t [a] = step o ofZ tbl g dssizes c orig t a.
+  Proof. cbn [steps]. destruct (step o ofZ tbl g dssizes c orig t a); reflexivity. Qed.
+
+  Lemma grid_op_sequence tbl (g : grid A) dssizes c (t : tensor A) r :
+    grid_op o ofZ tbl g dssizes c t = Ok r ->
+    exists u, steps o ofZ tbl g dssizes c (dnames (dims t)) t (k_axes c) = Ok u /\
+              restore_order g (dnames (dims t)) (k_axes c) u = Ok r.
+  Proof.
+    unfold grid_op. intros H.
+    destruct (mapM _ (k_axes c)) as [sigs|e]; [|discriminate]. cbn [bind] in H.
+    destruct (steps o ofZ tbl g dssizes c (dnames (dims t)) t (k_axes c)) as [u|e]; [|discriminate].
+    cbn [bind] in H. exists u. split; [reflexivity | exact H].
+  Qed.
+End Sequence.
